@@ -75,6 +75,13 @@ def build():
     one(r"rr_count\s*:\s*0\s*,", rp, "initial rr_count")
     one(r"axfr_delete_already_returned\s*:\s*false\s*,", rp, "initial axfr_delete_already_returned")
     one(r"finished\s*:\s*false\s*,", rp, "initial finished")
+    # width of the per-transfer record counter
+    rps = impl_body(src, r"pub\(super\)\s+struct\s+RecordProcessor")
+    m = one(r"rr_count\s*:\s*(usize|u64|u32|u16|u8|u128)\s*,", rps, "RecordProcessor.rr_count type")
+    bits = {"usize": 64, "u64": 64, "u128": 128, "u32": 32, "u16": 16, "u8": 8}[m.group(1)]
+    defs.append(("rr_count_bits", "N", "%d%%N" % bits))
+    acc = fn_body(src, "rr_count", after="impl RecordProcessor")
+    one(r"^\s*self\.rr_count\s*$", acc, "rr_count accessor returns the counter unconverted")
     # process_record
     pr = fn_body(src, "process_record", after="impl RecordProcessor")
     one(r"^\s*if\s+self\.finished\s*\{\s*return\s+Err\(IterationError::AlreadyFinished\);\s*\}\s*self\.rr_count\s*\+=\s*1\s*;", pr, "process_record prologue")
